@@ -5,7 +5,7 @@ import json
 import os
 import subprocess
 
-from vf import common, c13child, shrink as shr
+from vf import common, c13child, shrink as shr, twothread
 
 common.use_repo()
 from pydsol.core.streams import (MersenneTwister, SimpleStreamUpdater,      # noqa: E402
@@ -29,12 +29,16 @@ RULE = ("one farm run = a batch of %d generated cases (1-5 named streams with "
         "In-process: unlisted streams are served by the fallback updater without "
         "exception and like SimpleStreamUpdater; listed streams get table[r]; "
         "refused updates (negative, float, str, None, beyond the table) raise and "
-        "leave that stream's seed and next draws unchanged. non-trivial = the case "
+        "leave that stream's seed and next draws unchanged. 30 %% of the cases also run "
+        "the two-thread layer (two threads, own updater and streams of the same, "
+        "process-new names, update at once under seeded pre-emption inside streams.py; "
+        "both must get the single-threaded seeds). non-trivial = the case "
         "has r > 0 and at least one stream served by the hash-based fallback; "
         "distinct = digest of the case" % BATCH)
 COMPONENTS = {"real": ["pydsol.core.streams (SimpleStreamUpdater, StreamSeedUpdater, MersenneTwister) in 6 separate interpreter processes per batch"],
-              "stub": []}
-ASSUMPTIONS = ["process-level nondeterminism is controlled through PYTHONHASHSEED of child interpreters; 'random' lets the interpreter pick"]
+              "stub": ["threading.Thread.start / thread scheduling (baton scheduler, two-thread layer only)"]}
+ASSUMPTIONS = ["two-thread layer: each thread has its own updater and its own streams (sharing one stream object between threads is not judged)",
+               "process-level nondeterminism is controlled through PYTHONHASHSEED of child interpreters; 'random' lets the interpreter pick"]
 
 NAMES = ["default", "arrivals", "service", "a", "b", "", "stream-1", "Stream 2",
          "ü", "x" * 40, "routing", "breakdown"]
@@ -58,6 +62,8 @@ def gen_case(rng):
             n = rng.choice(sorted(table))
             table[n] = table[n][:max(0, min(len(table[n]), r))]
     case = {"names": names, "seeds": seeds, "updater": updater, "table": table, "r": r}
+    if rng.random() < 0.3:
+        case["tt_seed"] = rng.getrandbits(48)      # also run the two-thread layer
     if updater == "table" and rng.random() < 0.3:
         # any dict is accepted as a seed table, also ones whose [] differs from get()
         case["table_type"] = rng.choice(["defaultdict", "defaultdict", "missing", "ordered"])
@@ -82,6 +88,65 @@ def run_child(cases, hashseed):
     if p.returncode != 0:
         raise RuntimeError("child failed: " + p.stderr[-400:])
     return json.loads(p.stdout)
+
+
+def init_worker():
+    import pydsol.core.streams as _streamsmod
+    twothread.install(_streamsmod)
+
+
+def two_threads(case):
+    """Two threads of one process (parallel replications), each with its own
+    updater and its own streams of the same names, update their seeds at the same
+    time under seeded pre-emption inside streams.py: both must end up with what a
+    single thread gets.  Names are unique to the case, so that they are new to
+    the process (a memo per name would otherwise hide a first-use window)."""
+    tag = "-%s" % common.digest8([case["names"], case["seeds"], case["r"], "tt"])
+    names = [n + tag for n in case["names"]]
+    seeds = {n + tag: case["seeds"][n] for n in case["names"]}
+    items = [(n + tag, v) for n, v in case["table"].items()]
+    r = case["r"]
+
+    def world():
+        streams = {n: MersenneTwister(seeds[n]) for n in names}
+        upd = SimpleStreamUpdater() if case["updater"] == "simple" \
+            else StreamSeedUpdater(c13child.make_table(case, items))
+        return streams, upd
+
+    def outcome(streams, upd):
+        try:
+            upd.update_seeds(streams, r)
+        except (ValueError, TypeError) as e:
+            return "refused:" + type(e).__name__
+        return None
+
+    def seeds_of(streams):
+        return {n: streams[n].seed() for n in names}
+    sa, ua = world()
+    sb, ub = world()
+    res = {}
+    sched = {"seed": case.get("tt_seed", 0), "p": [0.05, 0.15, 0.3][case["r"] % 3],
+             "d": [2, 4, 8, 20][len(names) % 4]}
+    det, errors = twothread.run_two(sched, lambda: res.__setitem__("a", outcome(sa, ua)),
+                                    lambda: res.__setitem__("b", outcome(sb, ub)))
+    if det.aborted:
+        return ("harness", "two-thread run aborted: %s" % det.aborted)
+    if errors:
+        return ("seed-depends-on-thread-timing", "updating seeds in two threads raised %s: %s"
+                % (errors[0][1], errors[0][2]))
+    sc, uc = world()
+    exp_out = outcome(sc, uc)
+    exp = seeds_of(sc)
+    for who, st in (("a", sa), ("b", sb)):
+        if res.get(who) != exp_out or seeds_of(st) != exp:
+            diff = {n: (seeds_of(st)[n], exp[n]) for n in names if seeds_of(st)[n] != exp[n]}
+            return ("seed-depends-on-thread-timing",
+                    "two threads updated the seeds of their own streams %s for replication "
+                    "%d at the same time (%d thread switches inside streams.py): thread %s "
+                    "got {stream: (seed, single-threaded seed)} = %s (outcome %s, "
+                    "single-threaded %s)" % (names, r, det.n_switch, who, diff, res.get(who),
+                                             exp_out))
+    return None
 
 
 def in_process(case):
@@ -214,6 +279,9 @@ def execute(case):
                     fail_case = {"cases": [c], "hashseeds": [case["hashseeds"][0], case["hashseeds"][k]]}
         if finding is None:
             f = in_process(c)
+            if f is None and c.get("tt_seed") is not None:
+                f = two_threads(c)
+                cnt["layer:two_threads"] = cnt.get("layer:two_threads", 0) + 1
             if f:
                 finding = f
                 fail_case = {"cases": [c], "hashseeds": case["hashseeds"][:2]}
